@@ -188,6 +188,13 @@ func (s *Server) Run(addr string, opt ...Option) error {
 				s.connWg.Wait()
 				return nil
 			}
+			if ne, ok := err.(net.Error); ok && ne.Temporary() { //nolint:staticcheck // same idiom as net/http
+				// e.g. running out of file descriptors: existing connections
+				// keep being served and accepting resumes shortly
+				s.logger.Error("temporary error accepting conn", "op", op, "err", err.Error())
+				time.Sleep(5 * time.Millisecond)
+				continue
+			}
 			return fmt.Errorf("%s: error accepting conn: %w", op, err)
 		}
 		s.logger.Debug("new connection accepted", "op", op, "conn", connID)
